@@ -86,13 +86,34 @@ func ReqQueryAdd(req *bfe_basic.Request, params []string) {
 	}
 }
 
+// queryKey returns the decoded key of one "key[=value]" segment of a raw query.
+func queryKey(segment string) string {
+	key := segment
+	if i := strings.IndexByte(segment, '='); i >= 0 {
+		key = segment[:i]
+	}
+	if k, err := url.QueryUnescape(key); err == nil {
+		return k
+	}
+	return key
+}
+
+// rawQueryFilter removes from rawQuery the segments whose (decoded) key is not kept.
+func rawQueryFilter(rawQuery string, keep func(key string) bool) string {
+	segments := strings.Split(rawQuery, "&")
+	kept := make([]string, 0, len(segments))
+	for _, segment := range segments {
+		if segment == "" || keep(queryKey(segment)) {
+			kept = append(kept, segment)
+		}
+	}
+	return strings.Join(kept, "&")
+}
+
 // ReqQueryRename renames query key from old name to new name.
 func ReqQueryRename(req *bfe_basic.Request, oldName string, newName string) {
 	var values []string
 	var ok bool
-
-	// add prefix "&" to simplify process
-	rawQuery := "&" + req.HttpRequest.URL.RawQuery
 
 	// parse the query
 	queries := queryParse(req)
@@ -106,58 +127,40 @@ func ReqQueryRename(req *bfe_basic.Request, oldName string, newName string) {
 	queries.Del(oldName)
 	queries[newName] = values
 
-	// rename keys
-	srcKey := "&" + oldName + "="
-	dstKey := "&" + newName + "="
-	rawQuery = strings.Replace(rawQuery, srcKey, dstKey, -1)
-
-	// remove prefix "&"
-	req.HttpRequest.URL.RawQuery = rawQuery[1:]
+	// rename keys (in any spelling: "key=value", "key", percent-encoded key)
+	segments := strings.Split(req.HttpRequest.URL.RawQuery, "&")
+	for i, segment := range segments {
+		if segment == "" || queryKey(segment) != oldName {
+			continue
+		}
+		if j := strings.IndexByte(segment, '='); j >= 0 {
+			segments[i] = newName + segment[j:]
+		} else {
+			segments[i] = newName
+		}
+	}
+	req.HttpRequest.URL.RawQuery = strings.Join(segments, "&")
 }
 
 // ReqQueryDel deletes some keys from query
 func ReqQueryDel(req *bfe_basic.Request, keys []string) {
-	// add "&" prefix and suffix to simplify process
-	rawQuery := "&" + req.HttpRequest.URL.RawQuery + "&"
-
 	// parse the query
 	queries := queryParse(req)
 
 	// delete some keys from queries
+	keysMap := make(map[string]bool)
 	for _, key := range keys {
 		queries.Del(key)
-
-		for {
-			// find key start &key=
-			start := strings.Index(rawQuery, "&"+key+"=")
-			if start == -1 {
-				break
-			}
-
-			// find value end
-			end := strings.Index(rawQuery[start+1:], "&")
-			if end == -1 {
-				break
-			}
-
-			// remove start:start+end part
-			rawQuery = rawQuery[:start] + rawQuery[start+end+1:]
-		}
+		keysMap[key] = true
 	}
 
-	// set rawQuery, remove "&" prefix and suffix
-	if len(rawQuery) == 1 {
-		req.HttpRequest.URL.RawQuery = ""
-	} else {
-		req.HttpRequest.URL.RawQuery = rawQuery[1 : len(rawQuery)-1]
-	}
+	// delete them from rawQuery (in any spelling: "key=value", "key", percent-encoded key)
+	req.HttpRequest.URL.RawQuery = rawQueryFilter(req.HttpRequest.URL.RawQuery,
+		func(key string) bool { return !keysMap[key] })
 }
 
 // ReqQueryDelAllExcept deletes all keys from query, except some keys
 func ReqQueryDelAllExcept(req *bfe_basic.Request, keys []string) {
-	// add "&" prefix and suffix to simplify process
-	rawQuery := "&" + req.HttpRequest.URL.RawQuery + "&"
-
 	// parse the query
 	queries := queryParse(req)
 
@@ -169,33 +172,12 @@ func ReqQueryDelAllExcept(req *bfe_basic.Request, keys []string) {
 
 	// delete some keys from queries, except keys in keysMap
 	for key := range queries {
-		if _, ok := keysMap[key]; ok {
-			continue
-		}
-
-		queries.Del(key)
-		for {
-			// find key start
-			start := strings.Index(rawQuery, "&"+key+"=")
-			if start == -1 {
-				break
-			}
-
-			// find value end
-			end := strings.Index(rawQuery[start+1:], "&")
-			if end == -1 {
-				break
-			}
-
-			// remove start:start+end part
-			rawQuery = rawQuery[:start] + rawQuery[start+end+1:]
+		if !keysMap[key] {
+			queries.Del(key)
 		}
 	}
 
-	// set rawQuery, remove "&" prefix and suffix
-	if len(rawQuery) == 1 {
-		req.HttpRequest.URL.RawQuery = ""
-	} else {
-		req.HttpRequest.URL.RawQuery = rawQuery[1 : len(rawQuery)-1]
-	}
+	// delete them from rawQuery (in any spelling: "key=value", "key", percent-encoded key)
+	req.HttpRequest.URL.RawQuery = rawQueryFilter(req.HttpRequest.URL.RawQuery,
+		func(key string) bool { return keysMap[key] })
 }
